@@ -30,6 +30,43 @@ type noteLine struct {
 	Oct   int    `json:"oct"`
 	Msg   string `json:"msg,omitempty"`
 	Tried int64  `json:"tried,omitempty"`
+	Off   int    `json:"off"`
+	Want  int    `json:"want"` // ev = "cfg": the channel offset written behind the name (-1: none)
+}
+
+// cfgNote reads s as the note of a key in a configuration - the place where note names are used: `KEY_A = "<s>"` or
+// `KEY_A = "<s>,<offset>"` in an otherwise minimal valid description, through the real config.ParseData
+func cfgNote(s string, offset int) (l noteLine) {
+	l = noteLine{Ev: "cfg", S: s, Want: offset}
+	defer func() {
+		if p := recover(); p != nil {
+			l = noteLine{Ev: "crash", S: s, Msg: fmt.Sprint(p)}
+		}
+	}()
+	val := s
+	if offset >= 0 {
+		val = fmt.Sprintf("%s,%d", s, offset)
+	}
+	text := "collision_mode = \"off\"\nexit_sequence = []\n[identifier]\n  bus = 0\n[defaults]\n  octave = 0\n  semitone = 0\n" +
+		"  channel = 1\n  mapping = \"P\"\n  velocity = 64\n[action_mapping]\n[[mapping]]\n  name = \"P\"\n  [[mapping.keys]]\n" +
+		"    subhandler = \"\"\n    [mapping.keys.map]\n      KEY_A = \"" + val + "\"\n"
+	c, err := config.ParseData([]byte(text))
+	if err != nil || len(c.KeyMappings) != 1 {
+		return l
+	}
+	for _, k := range c.KeyMappings[0].Midi[""] {
+		l.Ok, l.V, l.Off = true, int(k.Note), int(k.ChannelOffset)
+	}
+	return l
+}
+
+func hasLetter(s string) bool {
+	for _, c := range s {
+		if (c >= 'a' && c <= 'z') || (c >= 'A' && c <= 'Z') {
+			return true
+		}
+	}
+	return false
 }
 
 func s2n(s string) (l noteLine) {
@@ -90,6 +127,10 @@ func cmdNotes(args []string) error {
 			mu.Unlock()
 			if !dup {
 				emit(l)
+				if hasLetter(s) && l.Ev == "s2n" {
+					emit(cfgNote(s, -1))
+					emit(cfgNote(s, []int{0, 3, 15}[len(s)%3]))
+				}
 			}
 		}
 	}
